@@ -80,11 +80,27 @@ def execSeq (E : Ed σ) (keep : Bool) : List Cmd → σ × Ctx → σ × Ctx
   | c :: cs, st => execSeq E keep cs (afterCmd E keep (execCmd E keep c st))
 end
 
-/-- `then_cmds.iter().any(Field | NamedField)` for some top-level `Global`. -/
-def hasPatternSearch (cmds : List Cmd) : Bool :=
-  cmds.any fun c => match c with
-    | .glob _ _ thn _ _ => thn.any fun c' => match c' with | .cut _ _ => true | _ => false
-    | _ => false
+mutual
+/-- `extracts_field` (main.rs): a `-c` directly in the list, looking through `Repeat`s. -/
+def extractsField : Cmd → Bool
+  | .cut _ _ => true
+  | .rep body _ => extractsFieldL body
+  | _ => false
+def extractsFieldL : List Cmd → Bool
+  | [] => false
+  | c :: cs => extractsField c || extractsFieldL cs
+end
+
+mutual
+/-- `has_pattern_search` (main.rs): some `-g`/`-v` scope extracts a field, looking through `Repeat`s. -/
+def hasPatternSearch1 : Cmd → Bool
+  | .glob _ _ thn _ _ => extractsFieldL thn
+  | .rep body _ => hasPatternSearch body
+  | _ => false
+def hasPatternSearch : List Cmd → Bool
+  | [] => false
+  | c :: cs => hasPatternSearch1 c || hasPatternSearch cs
+end
 
 structure Flags where
   keepMode : Bool := false
